@@ -20,8 +20,12 @@ Notation length := List.length (only parsing).
 
 Definition shape_site : N := 99%N.
 
+(* [tol] = whether running out of fuel is tolerated: True for the statements about the whole Reprocess loop (whose
+   fuel bound is not proved), False for everything inside one iteration (TreeFuel.v) *)
+Section Tol.
+Variable tol : Prop.
 Definition wps {A} (m : M A) (Q : A -> st -> Prop) (s : st) : Prop :=
-  match m s with Ok a s' => Q a s' | Panic n => n = shape_site | OutOfFuel => True end.
+  match m s with Ok a s' => Q a s' | Panic n => n = shape_site | OutOfFuel => tol end.
 
 Lemma wp_wps {A} (m : M A) (Q : A -> st -> Prop) s : wp m Q s -> wps m Q s.
 Proof. unfold wp, wps. destruct (m s); [auto | intros [] | intros []]. Qed.
@@ -263,7 +267,9 @@ Proof.
     destruct T0 as [<- | C]; [split; [exact ST | exact Et]|]. destruct ST as (g & -> & _). discriminate C.
 Qed.
 
-Lemma ptc_loop_ok t0 : forall fuel t more s, LI t0 s t more -> wps (ptc_loop fuel t more) (res_post t0) s.
+End Tol.
+
+Lemma ptc_loop_ok t0 : forall fuel t more s, LI t0 s t more -> wps True (ptc_loop fuel t more) (res_post t0) s.
 Proof.
   induction fuel as [|f IH]; intros t more s H; cbn [ptc_loop].
   - exact Logic.I.
@@ -274,7 +280,7 @@ Proof.
 Qed.
 
 Lemma process_to_completion_ok s t : TInv s -> tok_ok s t -> scalar_tok t ->
-  wps (process_to_completion t) (res_post t) s.
+  wps True (process_to_completion t) (res_post t) s.
 Proof.
   intros I TO Sc. unfold process_to_completion. apply wps_bind_wp. rewrite wp_get.
   apply ptc_loop_ok. split; [exact I | split; [exact TO | split; [exact Sc | split; [left; reflexivity | left; reflexivity]]]].
@@ -462,7 +468,7 @@ Definition token_enc (tk : token) (res : sink_result) (s' : st) : Prop :=
       enc_from (KTag (tag_of_token k name sc attrs dup)) l /\ enc_tail (KTag (tag_of_token k name sc attrs dup)) s' l.
 
 Theorem process_token_enc_ok s tk line : TInv s -> token_ok s tk -> scalar_token tk ->
-  wps (process_token tk line) (fun res s' => TInv s' /\ token_enc tk res s') s.
+  wps True (process_token tk line) (fun res s' => TInv s' /\ token_enc tk res s') s.
 Proof.
   intros I TO Sc. unfold process_token. apply wps_bind_wp.
   eapply wp_mono; [apply wp_conj; [apply pt_prelude_ok; assumption | apply pt_prelude_conv]|].
@@ -476,7 +482,7 @@ Proof.
 Qed.
 
 Theorem process_token_ok s tk line : TInv s -> token_ok s tk -> scalar_token tk ->
-  wps (process_token tk line) (fun _ s' => TInv s') s.
+  wps True (process_token tk line) (fun _ s' => TInv s') s.
 Proof.
   intros I TO Sc. eapply wps_mono; [apply process_token_enc_ok; assumption|]. intros res s' [I' _]. exact I'.
 Qed.
